@@ -175,7 +175,8 @@ def run_jobs(jobs, progress=None):
                     parts[i] = []
                     gb, wd, t0 = prepared[i]
                     for k, g in enumerate(groups):
-                        fut = ex.submit(cbmc.solve, jobs[i], gb, wd, g, "_%d" % k)
+                        fut = ex.submit(cbmc.solve, jobs[i], gb, wd, g, "_%d" % k, (),
+                                        jobs[i].rest_solvers if isinstance(g, cbmc.RestGroup) else None)
                         pend[fut] = ("solve", i, k)
                     if i in canaries:
                         cgb, cname = canaries[i]
